@@ -110,6 +110,15 @@ def gen_case(rng):
         if rng.random() < 0.3:
             body_calls.append("  nop")
             expanded.append("  nop")
+    # repeated calls whose argument lists differ but whose texts concatenate to the same string
+    if rng.random() < 0.3:
+        digits = "".join(rng.choice("123456789") for _ in range(rng.choice([3, 4, 5])))
+        i, j = sorted(rng.sample(range(1, len(digits)), 2))
+        for cut in (i, j, i):
+            a, b = digits[:cut], digits[cut:]
+            body_calls.append("  collide %s, %s" % (a, b))
+            expanded.append("  .dw %s, %s" % (a, b))
+        defs += [".macro collide", "  .dw @0, @1", ".endm"]
     tail = ["  .dw " + ", ".join(labels)] if labels else []
     prog = prelude + (body_calls + tail + defs if order else defs + body_calls + tail)
     return "\n".join(prog) + "\n", "\n".join(prelude + expanded + tail) + "\n"
@@ -118,7 +127,7 @@ def gen_case(rng):
 def run(res):
     vh, exe = P.base(res, PROP)
     rng = random.Random(res.seed)
-    pairs = [gen_case(rng) for _ in range(1500 if res.tier == "quick" else 150000)]
+    pairs = [gen_case(rng) for _ in range(1500 if res.tier == "quick" else 500000)]
     errs = [(".macro m\n nop\n.endm\n undefined_macro_call\n", "undefined-macro"),
             (".macro m\n ldi r16, @0\n.endm\n m\n", "missing-argument"),
             (".macro m\n ldi @0, @1\n.endm\n m r16\n", "missing-argument"),
